@@ -36,6 +36,18 @@ fn gen_prog(r: &mut Rng) -> Vec<H> {
         "called = clo(0)",
         "ks = keys(rec3)",
     ];
+    // spellings whose meaning depends on letter case (kb = kilobits, kB = kilobytes, ...): a
+    // process-wide cache keyed on something coarser than the spelling would make results depend on
+    // what was evaluated earlier
+    let unit_pairs = [
+        ("kb", "b"), ("kB", "b"), ("KB", "b"), ("Kb", "b"), ("mm", "m"), ("Mm", "m"), ("MM", "m"), ("mW", "W"), ("MW", "W"), ("mA", "A"), ("MA", "A"), ("ma", "A"),
+        ("c", "kelvin"), ("C", "Ah"), ("Gb", "b"), ("GB", "b"), ("km", "m"), ("KM", "M"), ("celsius", "F"), ("f", "c"),
+    ];
+    let mut unit_stmts: Vec<String> = Vec::new();
+    for k in 0..(1 + r.below(4)) {
+        let (a, b) = unit_pairs[r.below(unit_pairs.len())];
+        unit_stmts.push(format!("conv{} = convert({}, \"{}\", \"{}\")", k, 1 + r.below(9), a, b));
+    }
     let n_extra = 3 + r.below(extras.len() - 3);
     let start = r.below(extras.len());
     let mut used: Vec<&str> = Vec::new();
@@ -47,6 +59,11 @@ fn gen_prog(r: &mut Rng) -> Vec<H> {
     used.sort_by_key(|e| extras.iter().position(|x| x == e).unwrap());
     let mut out: Vec<H> = Vec::new();
     for e in used {
+        if let Ok(mut p) = crate::rt::parse_program(e) {
+            out.push(p.remove(0));
+        }
+    }
+    for e in &unit_stmts {
         if let Ok(mut p) = crate::rt::parse_program(e) {
             out.push(p.remove(0));
         }
@@ -273,6 +290,8 @@ pub fn run(ctx: &Ctx, sink: &mut Sink) {
                         }
                     }
                 }
+                // what this (long-lived, already used) process computes for exactly that program text
+                let inproc = run_once(&prog, &[], false).map(|r| r.outputs_json);
                 let runs = ctx.budget(4, 16);
                 let mut firsto: Option<(Option<i32>, Vec<u8>)> = None;
                 for _ in 0..runs {
@@ -286,7 +305,16 @@ pub fn run(ctx: &Ctx, sink: &mut Sink) {
                     sink.count("cli_process_runs", 1);
                     let cur = (out.status.code(), out.stdout.clone());
                     match &firsto {
-                        None => firsto = Some(cur),
+                        None => {
+                            // a fresh process and a process that has evaluated hundreds of other programs agree
+                            if let (Some(0), Some(inp)) = (cur.0, &inproc) {
+                                let cli_text = String::from_utf8_lossy(&cur.1).trim_end().to_string();
+                                if &cli_text != inp {
+                                    sink.viol("fresh-process-differs-from-used-process", "a fresh CLI process and a long-lived process that evaluated other programs before give different outputs for the same program", json!({"program": prog, "fresh_process": cli_text, "used_process": inp}));
+                                }
+                            }
+                            firsto = Some(cur)
+                        }
                         Some(f) => {
                             if *f != cur {
                                 sink.viol("process-runs-differ", "two processes running the same program print different outputs / exit differently", json!({"program": prog, "first": String::from_utf8_lossy(&f.1), "other": String::from_utf8_lossy(&cur.1)}));
